@@ -61,7 +61,11 @@ RULES = {
            "context}, each applied to one evaluation inside a history cold -> plain -> switched -> plain on a long-lived real graph: "
            "values equal the all-switches-off fresh value; disabled cache neither reads nor writes (recompute, next enabled evaluation "
            "recomputes once, stored entry survives); no effect when disabled; no logging record when disabled, otherwise exactly one "
-           "INFO record per dataset evaluation not served from a cache; non-trivial = graph contains a dataset",
+           "INFO record per dataset evaluation not served from a cache; family logging (Logged wrappers with log_first True/False anywhere "
+           "in graphs over options, applications, switch, coalesce, lists): the messages emitted are exactly those of the specification's "
+           "MustLog (lower bound, Surely) / MayLog (upper bound, Visit) / NoLog (log_first=False and the wrapped evaluation fails), at the "
+           "given level, in the given order relative to the wrapped node, each one observed as a LogRequest by a pass-through handler, and "
+           "none with logging disabled by option or context (same value); non-trivial = graph contains a dataset / a Logged node",
     "C19": "family classes: every dataset class of 1-3 members (options with flat and dotted keys, options with defaults, datasets, "
            "function applications, constants; the first member inherited from a base class) x every dictionary; attributes of the "
            "instance = the specification's Eval of each member; class-level keys/validate/explain = the specification's union; for "
@@ -200,6 +204,15 @@ FAMILIES = {
         runs={"quick": [dict(mode="bfs", max_nodes=5, sharing=False), dict(mode="sim", max_nodes=7, min_nodes=5, num=8000, depth=22, procs=8)],
               "thorough": [dict(mode="bfs", max_nodes=6, sharing=False), dict(mode="sim", max_nodes=8, min_nodes=5, num=60000, depth=26, procs=12)]},
         shards=[["case"]], shard_defs={"case": "SK_case"}),
+    "logging": dict(
+        consts=dict(Raises="NoRaises", Kinds="FLG_Kinds", Paths="FLG_Paths", Consts="FLG_Consts", Tmpls="None0",
+                    Fns="FLG_Fns", Bodies="FLG_Bodies", DispVals="FLG_Disp", Preds="None0", Presets="None0",
+                    MapPaths="None0", Leaves="FLG_Leaves", CollKinds="FS_Coll"),
+        sharing=False,
+        runs={"quick": [dict(mode="bfs", max_nodes=3), dict(mode="sim", max_nodes=5, min_nodes=4, num=6000, depth=16, procs=8)],
+              "thorough": [dict(mode="bfs", max_nodes=4), dict(mode="sim", max_nodes=6, min_nodes=4, num=30000, depth=18, procs=12)]},
+        shards=[["logged"], ["apply", "fnapp"], ["switch"], ["coalesce"], ["coll"]],
+        shard_defs={"logged": "SK_logged", "apply": "SK_applyfn", "switch": "SK_switch", "coalesce": "SK_coalesce", "coll": "SK_coll"}),
     "maps": dict(
         consts=dict(Raises="NoRaises", Kinds="FM_Kinds", Paths="FM_Paths", Consts="FM_Consts", Tmpls="None0",
                     Fns="None0", Bodies="FM_Bodies", DispVals="NoSeq", Preds="None0", Presets="None0",
